@@ -1,7 +1,8 @@
 CONSTANTS
   Thresholds = {0, 1, 2, 3}
-  Results = {"ok", "fail", "timeout"}
-  MaxLen = 7
+  Results = {"ok", "fail", "timeout", "late0_ok", "late2_fail"}
+  MaxLen = 5
+  WithB = TRUE
   Defects = {}
 SPECIFICATION Spec
 INVARIANT ExactOnHistory
